@@ -235,7 +235,7 @@ def stepText (s : S) (l : TextL) (c : Char) (p p' : Pos) : Except Err S :=
             let s1 := if text.isEmpty then s0 else s0.emit
               { kind := .text, value := text.reverse, start := l.start, stop := l.stop, tag := none }
             .ok (s1.emit { kind := .tag, value := l.tagBuf.reverse, start := l.stop, stop := p',
-                           tag := some { name := '/' :: tagName, attrs := [] } })
+                           tag := some { name := (l.nameBuf.reverse.drop 1).dropLast, attrs := [] } })   -- nameBuf = "</Name>" without blanks, as written
         else .ok { s with mode := .text { l with buf := c :: l.buf }, pos := p' }
       else .ok { s with mode := .text { l with tagBuf := [], nameBuf := [], buf := c :: l.buf }, pos := p' }
 
